@@ -351,6 +351,24 @@ def h_holder_matrix(ctx, kind):
             ctx.holds("holder: accessor of another kind raises TypeError", isinstance(e, TypeError),
                       "returned %s" % type(u).__name__ if e is None else exc_name(e))
     ctx.holds("holder tlv_type", TlvHolder(obj).tlv_type == own)
+    # one holder around the generic TLV, asked several times and re-filled: every answer depends only on what it holds now
+    generic = CfdpTlv.unpack(obj.pack())
+    holder = TlvHolder(generic)
+    e, first = call(getattr(holder, to_name))
+    ctx.holds("holder around the generic TLV: matching conversion works", e is None and type(first) is cls, exc_name(e))
+    for other, (ocls, oto, otyp, omk) in CONCRETE.items():
+        if other == kind:
+            continue
+        e, u = call(getattr(holder, oto))
+        ctx.holds("the same holder asked for another kind afterwards still raises the type-mismatch error", isinstance(e, TlvTypeMissmatch),
+                  "returned %s" % type(u).__name__ if e is None else exc_name(e))
+    other = "flow" if kind != "flow" else "entity"
+    ocls, oto, otyp, omk = CONCRETE[other]
+    holder.tlv = CfdpTlv.unpack(omk().pack())
+    e, u = call(getattr(holder, oto))
+    ctx.holds("re-filled holder converts its new content", e is None and type(u) is ocls, exc_name(e))
+    e, u = call(getattr(holder, to_name))
+    ctx.holds("re-filled holder refuses the old kind", isinstance(e, TlvTypeMissmatch), "returned %s" % type(u).__name__ if e is None else exc_name(e))
 
 
 def cases(tier):
